@@ -186,9 +186,9 @@ fn record(seed: u64, runs: u64, target: usize, path: &str, faults: bool, palette
                 }
             }
             v
-        } else if palette && k >= 17 + 36 {
+        } else if palette && k >= 17 + 42 {
             // formatted write in three pieces, the middle one long (255 / 256 / 300 / 1100 bytes): pieces reach the console in order
-            let l = [255usize, 256, 300, 1100][(k as usize - 53) % 4];
+            let l = [255usize, 256, 300, 1100][(k as usize - 59) % 4];
             let mut v = b"\x1b[32;44m".to_vec();
             v.extend((0..l).map(|i| b'a' + (i % 26) as u8));
             v.extend_from_slice(b"\x1b[0m!");
@@ -203,13 +203,14 @@ fn record(seed: u64, runs: u64, target: usize, path: &str, faults: bool, palette
         };
         bytes += input.len() as u64;
         let mut script = VecDeque::new();
-        let family: [&[Resp]; 12] = [
+        let family: [&[Resp]; 14] = [
+            &[Resp::Short(2), Resp::Short(0)], &[Resp::All, Resp::Short(1), Resp::Short(0), Resp::All],
             &[Resp::Short(2), Resp::ErrI, Resp::All], &[Resp::All, Resp::Short(1), Resp::ErrI, Resp::ErrI, Resp::All],
             &[Resp::All, Resp::ErrO], &[Resp::All, Resp::ErrI], &[Resp::Short(1), Resp::All, Resp::ErrO], &[Resp::All, Resp::All, Resp::ErrI],
             &[Resp::All, Resp::Short(2), Resp::ErrO], &[Resp::All, Resp::Short(0)], &[Resp::Short(2), Resp::Short(1), Resp::All, Resp::Short(1)],
             &[Resp::ErrO], &[Resp::ErrI], &[Resp::All, Resp::All, Resp::All, Resp::ErrO],
         ];
-        let fam = if palette && k >= 17 && k < 53 { Some(family[((k - 17) / 3) as usize % family.len()]) } else { None };
+        let fam = if palette && k >= 17 && k < 59 { Some(family[((k - 17) / 3) as usize % family.len()]) } else { None };
         if let Some(f) = fam {
             script.extend(f.iter().cloned());
         }
@@ -232,7 +233,7 @@ fn record(seed: u64, runs: u64, target: usize, path: &str, faults: bool, palette
         }
         let log = Rc::new(RefCell::new(ConsoleLog { script, calls: vec![] }));
         let mut s = wincon::WinconStream::new(Console(log.clone()));
-        let pieces3 = palette && k >= 53;
+        let pieces3 = palette && k >= 59;
         let style = if fam.is_some() || pieces3 { 0 } else { *r.pick(&[0usize, 1, 2, 3, 5, 8, 17, 64]) };
         let cuts = gen::gen_partition(&mut r, input.len(), style);
         let text_ok = std::str::from_utf8(&input).is_ok();
@@ -296,7 +297,14 @@ fn record(seed: u64, runs: u64, target: usize, path: &str, faults: bool, palette
                         let (b, c) = rest.split_at(rest.len() - 5);
                         write!(s, "{}{}{}", a, b, c).map(|_| buf.len())
                     }
-                    _ => write!(s, "{}", std::str::from_utf8(buf).unwrap()).map(|_| buf.len()),
+                    _ => {
+                        // every other formatted write passes its first character as a `char` argument (fmt::Write::write_char)
+                        let t = std::str::from_utf8(buf).unwrap();
+                        match t.chars().next() {
+                            Some(c0) if events % 2 == 0 => write!(s, "{}{}", c0, &t[c0.len_utf8()..]).map(|_| buf.len()),
+                            _ => write!(s, "{}", t).map(|_| buf.len()),
+                        }
+                    }
                 }
             }));
             let console: Vec<Value> = log.borrow().calls.iter().map(|(f, b, d, t, k)| json!([f, b, d, t, k])).collect();
